@@ -1,6 +1,8 @@
 package c19
 
 import (
+	"bytes"
+	"context"
 	"fmt"
 	"runtime"
 	"time"
@@ -31,14 +33,46 @@ func runChannelBatches(c *core.Ctx) {
 		runtime.GC() // start from empty pools
 		plan := []mon.Step{{At: "x1", Occ: 1, Kind: mon.Gate, Until: "go", UntilCount: 1, Timeout: 3 * time.Second}}
 		q := []int{4, 8, 16}[rng.Intn(3)]
-		rig := mon.NewRig(mon.RigOpts{Mode: mon.Blocking, Queue: q, Plan: plan, QuietTail: true})
+		mode := mon.Blocking
+		if i%2 == 1 {
+			mode = mon.NonBlock // the queue fills up while the sender is late: further writes are refused
+		}
+		rig := mon.NewRig(mon.RigOpts{Mode: mode, Queue: q, Plan: plan, QuietTail: true})
 		sizes := []int{1500, 700, 300, 3000, 1024, 100}
 		n := 2 + rng.Intn(q-1)
+		if mode == mon.NonBlock {
+			n = q
+		}
 		var used []int
 		for k := 0; k < n; k++ {
 			s := sizes[rng.Intn(len(sizes))]
 			used = append(used, s)
 			rig.Ch.Write1(mon.Payload(1, k, s))
+		}
+		if mode == mon.NonBlock {
+			// refused calls through every entry point that takes or hands over a pooled buffer
+			cancelled, cancel := context.WithCancel(context.Background())
+			cancel()
+			for k, m := 0, 1+rng.Intn(4); k < m; k++ {
+				s := sizes[rng.Intn(len(sizes))]
+				var err error
+				switch rng.Intn(5) {
+				case 0:
+					_, err = rig.Ch.Write1(mon.Payload(2, k, s))
+				case 1:
+					_, err = rig.Ch.Writev([][]byte{mon.Payload(2, k, s), mon.Payload(3, k, 40)})
+				case 2:
+					_, err = rig.Ch.ReadFrom(bytes.NewReader(mon.Payload(2, k, s)))
+				case 3:
+					_, err = rig.Ch.CtxWrite1(cancelled, mon.Payload(2, k, s))
+				default:
+					_, err = rig.Ch.Writer().Write(mon.Payload(2, k, s))
+				}
+				if err != nil {
+					c.Count("channel_refused_writes", 1)
+					used = append(used, -s)
+				}
+			}
 		}
 		rig.S.Mark("go") // the late sender now takes everything in one or two batches and recycles the copies
 		rig.Ex.WaitOutstanding(1, 5*time.Second)
